@@ -81,9 +81,8 @@ func (e *Exec) instr(fr *Frame, ins ssa.Instruction, st *State, g string) {
 		elem := x.Type().Underlying().(*types.Slice).Elem()
 		h, hs := e.elemHeap(elem)
 		base := e.alloc(st)
-		e.set(st, h, hs, Sto(e.get(st, h, hs), base, e.zeroOf(types.NewArray(elem, 0))))
-		e.recordWrite(h, base)
-		e.define(fr, x, "(mk_slice "+base+" 0 "+ln.T+" "+cp.T+")")
+		e.write1(st, h, hs, base, e.zeroOf(types.NewArray(elem, 0)))
+		e.defSlice(fr, x, base, "0", ln.T, cp.T)
 	case *ssa.MakeMap:
 		m := x.Type().Underlying().(*types.Map)
 		d, v, ds, vs := e.mapHeaps(m)
@@ -153,7 +152,7 @@ func (e *Exec) instr(fr *Frame, ins ssa.Instruction, st *State, g string) {
 				v.Tup = append(v.Tup, rv)
 			}
 		}
-		fr.rets = append(fr.rets, retInfo{g, v, st.clone()})
+		fr.rets = append(fr.rets, retInfo{g, v, st.clone(), shortPos(e.P.Fset.Position(x.Pos()))})
 	case *ssa.If, *ssa.Jump:
 	case *ssa.Panic:
 		if e.Opt.Sweep {
@@ -190,19 +189,16 @@ func (e *Exec) doAlloc(fr *Frame, x *ssa.Alloc, st *State) {
 	case *types.Struct:
 		for i := 0; i < u.NumFields(); i++ {
 			h, hs, ft := e.fieldHeap(pt, i)
-			e.set(st, h, hs, Sto(e.get(st, h, hs), ref, e.zeroOf(ft)))
-			e.recordWrite(h, ref)
+			e.write1(st, h, hs, ref, e.zeroOf(ft))
 		}
 		fr.vals[x] = Val{T: ref, S: SInt, Ty: x.Type()}
 	case *types.Array:
 		h, hs := e.elemHeap(u.Elem())
-		e.set(st, h, hs, Sto(e.get(st, h, hs), ref, e.zeroOf(pt)))
-		e.recordWrite(h, ref)
+		e.write1(st, h, hs, ref, e.zeroOf(pt))
 		fr.vals[x] = Val{Addr: &Addr{Kind: "row", Heap: h, HS: hs, Ref: ref, Ty: pt}, Ty: x.Type()}
 	default:
 		h, hs := e.cellHeap(pt)
-		e.set(st, h, hs, Sto(e.get(st, h, hs), ref, e.zeroOf(pt)))
-		e.recordWrite(h, ref)
+		e.write1(st, h, hs, ref, e.zeroOf(pt))
 		fr.vals[x] = Val{Addr: &Addr{Kind: "cell", Heap: h, HS: hs, Ref: ref, Ty: pt}, Ty: x.Type()}
 	}
 }
@@ -230,8 +226,8 @@ func (e *Exec) doIndexAddr(fr *Frame, x *ssa.IndexAddr, st *State, g string) {
 	switch t := x.X.Type().Underlying().(type) {
 	case *types.Slice:
 		h, hs := e.elemHeap(t.Elem())
-		e.safety(fr, x, g, "(and (>= "+iv.T+" 0) (< "+iv.T+" (s_len "+xv.T+")))", "index")
-		fr.vals[x] = Val{Addr: &Addr{Kind: "elem", Heap: h, HS: hs, Ref: "(s_base " + xv.T + ")", Idx: "(+ (s_off " + xv.T + ") " + iv.T + ")", Ty: t.Elem()}, Ty: x.Type()}
+		e.safety(fr, x, g, "(and (>= "+iv.T+" 0) (< "+iv.T+" "+e.slen(xv.T)+"))", "index")
+		fr.vals[x] = Val{Addr: &Addr{Kind: "elem", Heap: h, HS: hs, Ref: ""+e.sbase(xv.T)+"", Idx: elemIdx(e.soff(xv.T), iv.T), Ty: t.Elem()}, Ty: x.Type()}
 	case *types.Pointer:
 		arr := t.Elem().Underlying().(*types.Array)
 		e.safety(fr, x, g, "(and (>= "+iv.T+" 0) (< "+iv.T+" "+IntLit(arr.Len())+"))", "index")
@@ -279,7 +275,7 @@ func (e *Exec) doUnOp(fr *Frame, x *ssa.UnOp, st *State, g string) {
 			for i := 0; i < su.NumFields(); i++ {
 				h, hs, ft := e.fieldHeap(pt, i)
 				proj := e.Out.DeclareFun("SF$"+e.typeName(pt)+"."+su.Field(i).Name(), []Sort{SInt}, e.sortOf(ft))
-				e.Out.Assert(Eq(App(proj, tok), Sel(e.get(st, h, hs), ref)))
+				e.Out.Assert(Eq(App(proj, tok), e.read1(e.get(st, h, hs), ref)))
 			}
 			fr.vals[x] = Val{T: tok, S: SInt, Ty: x.Type()}
 			return
@@ -341,7 +337,7 @@ func (e *Exec) doBinOp(fr *Frame, x *ssa.BinOp, st *State, g string) {
 			if c, ok := x.X.(*ssa.Const); ok && c.Value == nil {
 				other = b
 			}
-			t = Eq("(s_base "+other.T+")", "0")
+			t = Eq(""+e.sbase(other.T)+"", "0")
 		case *types.Struct:
 			t = e.Out.Fresh(fr.prefix+x.Name()+"$structeq", SBool)
 		case *types.Signature:
@@ -412,11 +408,11 @@ func (e *Exec) doBinOp(fr *Frame, x *ssa.BinOp, st *State, g string) {
 	case token.GEQ:
 		e.define(fr, x, "(>= "+a.T+" "+b.T+")")
 	case token.ADD:
-		e.define(fr, x, ii.wrapOnce("(+ "+a.T+" "+b.T+")"))
+		e.defineOpaque(fr, x, ii.wrapOnce("(+ "+a.T+" "+b.T+")"))
 	case token.SUB:
-		e.define(fr, x, ii.wrapOnce("(- "+a.T+" "+b.T+")"))
+		e.defineOpaque(fr, x, ii.wrapOnce("(- "+a.T+" "+b.T+")"))
 	case token.MUL:
-		e.define(fr, x, ii.wrapMod("(* "+a.T+" "+b.T+")"))
+		e.defineOpaque(fr, x, ii.wrapMod("(* "+a.T+" "+b.T+")"))
 	case token.QUO:
 		e.safety(fr, x, g, Not(Eq(b.T, "0")), "div-by-zero")
 		q := tdiv(a.T, b.T)
@@ -503,9 +499,8 @@ func (e *Exec) doConvert(fr *Frame, x *ssa.Convert, st *State) {
 			h, hs := e.elemHeap(sl.Elem())
 			base := e.alloc(st)
 			row := e.Out.Fresh("str2bytes", ArrSort(SInt, SInt))
-			e.set(st, h, hs, Sto(e.get(st, h, hs), base, row))
-			e.recordWrite(h, base)
-			e.define(fr, x, "(mk_slice "+base+" 0 (str.len "+v.T+") (str.len "+v.T+"))")
+			e.write1(st, h, hs, base, row)
+			e.defSlice(fr, x, base, "0", "(str.len "+v.T+")", "(str.len "+v.T+")")
 		} else {
 			e.unsupported("convert %s -> %s", from, to)
 		}
@@ -617,8 +612,7 @@ func (e *Exec) doStore(fr *Frame, x *ssa.Store, st *State, g string) {
 		for i := 0; i < su.NumFields(); i++ {
 			h, hs, ft := e.fieldHeap(pt, i)
 			proj := e.Out.DeclareFun("SF$"+e.typeName(pt)+"."+su.Field(i).Name(), []Sort{SInt}, e.sortOf(ft))
-			e.set(st, h, hs, Sto(e.get(st, h, hs), av.T, App(proj, v.T)))
-			e.recordWrite(h, av.T)
+			e.write1(st, h, hs, av.T, App(proj, v.T))
 		}
 		return
 	}
@@ -645,10 +639,10 @@ func (e *Exec) doSlice(fr *Frame, x *ssa.Slice, st *State, g string) {
 	switch t := x.X.Type().Underlying().(type) {
 	case *types.Slice:
 		lo := opt(x.Low, "0")
-		hi := opt(x.High, "(s_len "+xv.T+")")
-		mx := opt(x.Max, "(s_cap "+xv.T+")")
-		e.safety(fr, x, g, "(and (<= 0 "+lo+") (<= "+lo+" "+hi+") (<= "+hi+" "+mx+") (<= "+mx+" (s_cap "+xv.T+")))", "slice-bounds")
-		e.define(fr, x, "(mk_slice (s_base "+xv.T+") (+ (s_off "+xv.T+") "+lo+") (- "+hi+" "+lo+") (- "+mx+" "+lo+"))")
+		hi := opt(x.High, ""+e.slen(xv.T)+"")
+		mx := opt(x.Max, ""+e.scap(xv.T)+"")
+		e.safety(fr, x, g, "(and (<= 0 "+lo+") (<= "+lo+" "+hi+") (<= "+hi+" "+mx+") (<= "+mx+" "+e.scap(xv.T)+"))", "slice-bounds")
+		e.defSlice(fr, x, e.sbase(xv.T), addInt(e.soff(xv.T), lo), subInt(hi, lo), subInt(mx, lo))
 	case *types.Basic: // string
 		lo := opt(x.Low, "0")
 		hi := opt(x.High, "(str.len "+xv.T+")")
@@ -668,7 +662,7 @@ func (e *Exec) doSlice(fr *Frame, x *ssa.Slice, st *State, g string) {
 		if gl, ok := x.X.(*ssa.Global); ok {
 			e.globalFacts(gl, st)
 		}
-		e.define(fr, x, "(mk_slice "+a.Ref+" "+lo+" (- "+hi+" "+lo+") (- "+mx+" "+lo+"))")
+		e.defSlice(fr, x, a.Ref, lo, subInt(hi, lo), subInt(mx, lo))
 	default:
 		e.unsupported("slice of %s", x.X.Type())
 	}
@@ -784,27 +778,11 @@ func (e *Exec) doSelect(fr *Frame, x *ssa.Select, st *State, g string) {
 	fr.vals[x] = Val{Tup: vs, Ty: x.Type()}
 }
 
-// snapshotBytes returns a Bytes term holding the current contents of a byte slice.
+// snapshotBytes returns a Bytes term holding the current contents of a byte slice (a term, usable under binders).
 func (e *Exec) snapshotBytes(sl string, st *State) string {
 	h, hs := e.elemHeap(types.Typ[types.Uint8])
 	heap := e.get(st, h, hs)
-	key := "snap|" + sl + "|" + heap
-	if e.snapCache == nil {
-		e.snapCache = map[string]string{}
-	}
-	if sym, ok := e.snapCache[key]; ok {
-		if _, live := e.Out.declared[sym]; live {
-			return sym
-		}
-	}
-	defer func() {}()
-	b := e.Out.Fresh("bytes", SBytes)
-	i := e.Out.FreshName("i")
-	row := Sel(heap, "(s_base "+sl+")")
-	e.Out.Assert(Eq("(blen "+b+")", "(s_len "+sl+")"))
-	e.Out.Assert("(forall ((" + i + " Int)) (! (= (select (barr " + b + ") " + i + ") (ite (and (<= 0 " + i + ") (< " + i + " (s_len " + sl + "))) (select " + row + " (+ (s_off " + sl + ") " + i + ")) 0)) :pattern ((select (barr " + b + ") " + i + "))))")
-	e.snapCache[key] = b
-	return b
+	return "(snapb " + Sel(heap, ""+e.sbase(sl)+"") + " "+e.soff(sl)+" "+e.slen(sl)+")"
 }
 
 func trimPkg(s string) string {
